@@ -9,7 +9,7 @@ from bsvc import axioms, speclib, terms as tm
 from bsvc.terms import REAL, INT
 from bsvc.values import Arr, Obj, to_term
 
-PROPS = ['C09', 'C04', 'C08']
+PROPS = ['C09', 'C04', 'C08', 'C02']      # C02: "rate and RULE expressions evaluate to their mathematical meaning" - the rule classes hand state, parameters, volume and time to the parsed expression
 R0, I0, I1 = tm.mk_real(0), tm.mk_int(0), tm.mk_int(1)
 AS = tm.ArraySort(INT, REAL)
 
